@@ -47,7 +47,9 @@ def keep(r):
         return "-r9h" in name
     if sel == "round10":
         return "-r10e" in name
-    return not name.startswith("refactor-") and not any(t in name for t in ("-r2m", "-r3m", "-r4m", "-r5m", "-r6m", "-r7m", "-r8g", "-r9h", "-r10e"))
+    if sel == "round11":
+        return "-r11f" in name
+    return not name.startswith("refactor-") and not any(t in name for t in ("-r2m", "-r3m", "-r4m", "-r5m", "-r6m", "-r7m", "-r8g", "-r9h", "-r10e", "-r11f"))
 if sel == "refactor":
     print("| refactoring | change (behaviour preserving; the suite passes) | checks that raise an alarm |")
 else:
